@@ -163,7 +163,11 @@ func discharge(o *Obligation, dir string, idx int, opts solveOpts) {
 		}
 		return false
 	}
-	if try(opts.timeoutS) {
+	first := opts.timeoutS
+	if o.Vacuity && first > 5 {
+		first = 5 // covers are sanity checks: confirmed quickly or reported as unconfirmed
+	}
+	if try(first) {
 		return
 	}
 	if o.Vacuity {
